@@ -98,3 +98,82 @@ def stmt_of(node: ast.AST) -> ast.AST:
     while p is not None and not isinstance(p, ast.stmt):
         p = getattr(p, "_parent", None)
     return p
+
+
+# ----------------------------------------------------------------------------------------------------------------
+# Task identity.  A task's `.id` is its LOCAL id: two tasks in different containers may share it (`fe.test`, `be.test`);
+# only `.fullId` and the object itself identify a task.  Resources, accounts, shifts, scenarios and attribute definitions
+# live in flat name spaces, so their `.id` is an identity.  Frozen exception table: (function, receiver text) -> reason.
+_FLAT_ID_HINTS = ("res", "account", "shift", "scenario", "report", "attr", "definition", "journal", "macro", "column")
+LOCAL_ID_EXCEPTIONS = {
+    ("PropertySet.addAttributeType", "attribute_definition"): "attribute definitions are a flat name space",
+}
+
+
+def _flat_receiver(e: ast.AST) -> bool:
+    t = norm(e).lower()
+    return any(h in t for h in _FLAT_ID_HINTS)
+
+
+def local_id_identity_sites(fn: Func) -> list:
+    """[(node, description)] where a local `.id` stands in for the identity of a (possibly) hierarchical property."""
+    out = []
+
+    def is_id(e):
+        return isinstance(e, ast.Attribute) and e.attr == "id" and not _flat_receiver(e.value) \
+            and (fn.qual, norm(e.value)) not in LOCAL_ID_EXCEPTIONS
+    for n in own_nodes(fn):
+        if isinstance(n, ast.Compare) and len(n.ops) == 1:
+            l, r = n.left, n.comparators[0]
+            if isinstance(n.ops[0], (ast.Eq, ast.NotEq)) and is_id(l) and is_id(r):
+                out.append((n, f"identity test by local id: {norm(n)}"))
+            elif isinstance(n.ops[0], (ast.In, ast.NotIn)) and is_id(l):
+                out.append((n, f"membership test by local id: {norm(n)}"))
+        elif isinstance(n, ast.Call) and isinstance(n.func, ast.Attribute) and n.func.attr in ("add", "append", "discard", "remove") \
+                and len(n.args) == 1 and is_id(n.args[0]):
+            out.append((n, f"collection keyed by local id: {norm(n)}"))
+        elif isinstance(n, ast.Subscript) and is_id(n.slice):
+            out.append((n, f"table keyed by local id: {norm(n)}"))
+        elif isinstance(n, (ast.SetComp, ast.ListComp)) and is_id(n.elt):
+            out.append((n, f"collection of local ids: {norm(n)[:60]}"))
+        elif isinstance(n, ast.DictComp) and is_id(n.key):
+            out.append((n, f"table keyed by local id: {norm(n)[:60]}"))
+    return out
+
+
+def local_id_identity_rule(ctx: Ctx, rid: str, files: tuple, what: str):
+    """No function of `files` identifies a task by its local id (zero expected; a built-in control must match)."""
+    ctrl = ast.parse("def f(a, b, s):\n    if a.id == b.id: s.add(a.id)\n    return a.fullId == b.fullId\n").body[0]
+
+    class _F:  # minimal Func stand-in for the control sample
+        qual = "<control>"
+        node = ctrl
+
+        @staticmethod
+        def body():
+            return ctrl.body
+    for x in ast.walk(ctrl):
+        for c in ast.iter_child_nodes(x):
+            c._parent = x
+    try:
+        got = local_id_identity_sites(_F)
+    except Exception:
+        got = []
+    if len(got) != 2:
+        from ..model import AnchorMissing
+        raise AnchorMissing("local-id identity rule: built-in control sample no longer matches")
+    nfn = 0
+    for fn in sorted(ctx.repo.all_funcs(), key=lambda f: f.key):
+        if not fn.module.rel.endswith(files):
+            continue
+        nfn += 1
+        for node, desc in local_id_identity_sites(fn):
+            ctx.ob(rid, f"{fn.qual}: {desc}", (fn, node), False,
+                   f"{desc}: a task's .id is its local id, shared by same-named tasks in other containers; {what}",
+                   key=key_of_text(rid, fn.qual, norm(node)))
+    ctx.ob(rid, f"no task identity by local id in {nfn} functions of {', '.join(files)}", None, True,
+           "tasks are identified by object identity or fullId only", nontrivial=False)
+
+
+def key_of_text(*parts) -> str:
+    return "|".join(p for p in parts if p)
